@@ -560,8 +560,8 @@ def run(tier):
 
     ck = Check("C12", tier)
     ck.assumptions += ASSUMPTIONS
-    br = common.build("C12", models=("compose", "rules"), extra_targets=("theories/Properties/C12rules.vo",))
-    ck.proofs(br, extra_files=("C12rules",))
+    br = common.build("C12", models=("compose", "rules"), extra_targets=("theories/Properties/C12rules.vo", "theories/Properties/C12dirs.vo"))
+    ck.proofs(br, extra_files=("C12rules", "C12dirs"))
     if not br.ok:
         return ck.finish()
     m = Model("compose")
@@ -694,7 +694,11 @@ def run(tier):
         ck.assumptions += crules.ASSUMPTIONS
         crules.core(ck, tier, True, budget_s=20 if quick else 200)
         ck.extra["rules_rule"] = ck.rule
-        ck.rule = rule0 + " (concrete rules) see coverage.rules_rule"
+        from . import crulesdir
+        ck.assumptions += crulesdir.ASSUMPTIONS
+        crulesdir.core(ck, tier, True, budget_s=15 if quick else 200)
+        ck.extra["rulesdir_rule"] = ck.rule
+        ck.rule = rule0 + " (concrete rules) see coverage.rules_rule and coverage.rulesdir_rule"
     return ck.finish()
 
 
